@@ -227,6 +227,19 @@ type world struct {
 	// unit is the number of wei one model value unit stands for: 1, or 2^64+1 so that every non-zero value, balance
 	// and journal entry exceeds 64 bits (the model's arithmetic is the same under either scale)
 	unit *big.Int
+	// str1: the scenario registers / journals slot 1, which then is a Solidity string variable: its values are stored as one-byte
+	// short strings and journaled with the reference-type instructions (RSVJNAL / VRJNAL); slot 0 stays a value-type variable
+	str1 bool
+}
+
+// strWord: the storage word of the short string <<v>> (empty for 0)
+func strWord(v int) common.Hash {
+	var h common.Hash
+	if v != 0 {
+		h[0] = byte(v)
+		h[31] = 2
+	}
+	return h
 }
 
 var bigUnit = new(big.Int).Add(new(big.Int).Lsh(big.NewInt(1), 64), big.NewInt(1))
@@ -299,7 +312,12 @@ func (w *world) compileBlock(a *evmx.Asm, prog []Instr, cancun bool, failsAtLast
 	for _, in := range prog {
 		switch in.Op {
 		case "SSTORE":
-			a.Push(uint64(in.Val)).Push(uint64(in.Slot)).Op(vm.SSTORE)
+			if w.str1 && in.Slot == 1 {
+				h := strWord(in.Val)
+				a.PushBytes(h[:]).Push(1).Op(vm.SSTORE)
+			} else {
+				a.Push(uint64(in.Val)).Push(uint64(in.Slot)).Op(vm.SSTORE)
+			}
 		case "LOG":
 			a.Push(0).Push(0).Op(vm.LOG0)
 		case "TSTORE":
@@ -310,10 +328,18 @@ func (w *world) compileBlock(a *evmx.Asm, prog []Instr, cancun bool, failsAtLast
 			// name "k<slot>" at 0xC0: [len][bytes]
 			a.MStore32(0xC0, []byte{2})
 			a.MStoreBytes(0xE0, []byte(fmt.Sprintf("k%d", in.Slot)))
-			a.PushBytes(TypeID[:]).Push(0).Push(uint64(in.Slot)).Push(0xC0).Op(vm.VSVJNAL)
+			if w.str1 && in.Slot == 1 {
+				a.PushBytes(TypeID[:]).Push(1).Push(0xC0).Op(vm.RSVJNAL)
+			} else {
+				a.PushBytes(TypeID[:]).Push(0).Push(uint64(in.Slot)).Push(0xC0).Op(vm.VSVJNAL)
+			}
 		case "JV":
-			// VVJNAL pops slot, offset, width, typeId
-			a.PushBytes(TypeID[:]).Push(1).Push(0).Push(uint64(in.Slot)).Op(vm.VVJNAL)
+			if w.str1 && in.Slot == 1 {
+				a.PushBytes(TypeID[:]).Push(1).Op(vm.VRJNAL)
+			} else {
+				// VVJNAL pops slot, offset, width, typeId
+				a.PushBytes(TypeID[:]).Push(1).Push(0).Push(uint64(in.Slot)).Op(vm.VVJNAL)
+			}
 		case "SELFDESTRUCT":
 			a.PushAddr(w.addr(in.Tgt)).Op(vm.SELFDESTRUCT)
 		case "STOP":
@@ -578,6 +604,13 @@ func Run(s *Scenario, fork string) (out Outcome) {
 	if (len(s.Frames)*7+s.FailPos*3+ni)%2 == 0 {
 		w.unit = bigUnit
 	}
+	for _, f := range s.Frames {
+		for _, in := range f.Prog {
+			if (in.Op == "REGKEY" || in.Op == "JV") && in.Slot == 1 {
+				w.str1 = true
+			}
+		}
+	}
 	env := evmx.NewEnv(evmx.EnvOpts{Fork: fork, Tracer: true, Steps: false})
 	st := env.State
 	st.SetBalance(w.addr("eoa"), w.wei(5))
@@ -785,7 +818,11 @@ func (c *comparer) world() {
 		}
 		for s := 0; s < 2; s++ {
 			got := st.GetState(a, common.BigToHash(big.NewInt(int64(s))))
-			if got != common.BigToHash(big.NewInt(int64(want[s]))) {
+			wantWord := common.BigToHash(big.NewInt(int64(want[s])))
+			if c.w.str1 && s == 1 {
+				wantWord = strWord(want[s])
+			}
+			if got != wantWord {
 				c.miss("world.stor", "storage %s[%d] is %x, model %d", n, s, got, want[s])
 			}
 		}
